@@ -720,7 +720,9 @@ class MarkdownNormalizer(Renderer):
         """
         lines: list[str] = []
         head, *body = element.children
-        lines.append(self.render(head))
+        # Rows carry the container prefix (list indent, `> `) like every other block.
+        lines.append(f"{self._prefix}{self.render(head)}")
+        self._prefix = self._second_prefix
 
         normalized_delimiters: list[str] = []
         for delimiter in element.delimiters:
@@ -738,9 +740,11 @@ class MarkdownNormalizer(Renderer):
                 normalized_delimiter = "---"
             normalized_delimiters.append(normalized_delimiter)
 
-        lines.append(f"| {' | '.join(normalized_delimiters)} |\n")
+        lines.append(f"{self._second_prefix}| {' | '.join(normalized_delimiters)} |\n")
         for row in body:
-            lines.append(self.render(row))
+            lines.append(f"{self._second_prefix}{self.render(row)}")
+        # After rendering a table, don't suppress the next item break
+        self._suppress_item_break = False
         return "".join(lines)
 
     def render_table_row(self, element: gfm_elements.TableRow) -> str:
